@@ -170,8 +170,9 @@ func (r *rRun) run(c c17RCase) {
 		where := fmt.Sprintf("op %d %s in state %s (frame %d: %s, %d bytes, reference: ok=%v %s; concurrency %d)", i, op, rsNames[state], cur, c.Frames[cur].Kind, len(frames[cur]), fr.OK(), fr.Err, conc)
 		if op.Op == "reset" {
 			if state == rsReading && conc > 1 && !fr.Legacy && fr.BlockIndep {
-				r.abandons = true
-				class("abandoned_epoch")
+				// (since the repair of Reader.Reset the pipeline of the abandoned stream is drained in the background, so its
+				// goroutines must be gone at the end of the history like everybody else's: the leak verdict is judged)
+				class("abandoned_epoch(drained-by-Reset)")
 			}
 			if state == rsEOF {
 				class("reuse/reset-after-eof")
@@ -476,7 +477,45 @@ func drawRFrame(t *rapid.T) rFrame {
 	return f
 }
 
+// drawC17RReuse: a concurrent Reader that is Reset again and again, often before the end of the stream (after a
+// zero-length Read, which already starts the pipeline, or after one partial Read), with hook-site delays that make
+// the goroutines of the abandoned stream linger while the next stream is being read.
+func drawC17RReuse(t *rapid.T) c17RCase {
+	var c c17RCase
+	nf := rapid.IntRange(1, 3).Draw(t, "nframes")
+	for i := 0; i < nf; i++ {
+		f := rFrame{Kind: "writer", Opts: wopts{BS: 4, BlockSum: rapid.Bool().Draw(t, "bsum"), ContentSum: rapid.IntRange(0, 3).Draw(t, "csum") != 0, Size: rapid.Bool().Draw(t, "size"), Conc: 1},
+			N: rapid.SampledFrom([]int{0, 1, 100, 70000, 200000, 400000}).Draw(t, "n"), Seed: rapid.Uint64Range(1, 50).Draw(t, "seed")}
+		if rapid.IntRange(0, 3).Draw(t, "trail?") == 0 {
+			f.Trail = 7
+		}
+		c.Frames = append(c.Frames, f)
+	}
+	c.Ops = append(c.Ops, rOp{Op: "apply", Conc: rapid.SampledFrom([]int{2, 4}).Draw(t, "conc")})
+	for e := rapid.IntRange(2, 6).Draw(t, "epochs"); e > 0; e-- {
+		switch rapid.IntRange(0, 5).Draw(t, "how") {
+		case 0:
+			c.Ops = append(c.Ops, rOp{Op: "read", N: 0})
+		case 1:
+			c.Ops = append(c.Ops, rOp{Op: "read", N: rapid.SampledFrom([]int{1, 4095, 65536}).Draw(t, "partial")})
+		case 2:
+			c.Ops = append(c.Ops, rOp{Op: "writeto"})
+		case 3:
+			c.Ops = append(c.Ops, rOp{Op: "size"}, rOp{Op: "read", N: 0})
+		default:
+			c.Ops = append(c.Ops, rOp{Op: "read", N: 1 << 20}, rOp{Op: "read", N: 1 << 20}, rOp{Op: "read", N: 7})
+		}
+		c.Ops = append(c.Ops, rOp{Op: "reset", Frame: rapid.IntRange(0, nf-1).Draw(t, "frame")})
+	}
+	c.Ops = append(c.Ops, rOp{Op: "read", N: 1 << 20}, rOp{Op: "read", N: 1 << 20}, rOp{Op: "read", N: 4095}, rOp{Op: "size"})
+	c.Sched = rapid.SliceOfN(rapid.SampledFrom([]int{0, 0, 5, 50, 500, 5000}), 1, 23).Draw(t, "sched")
+	return c
+}
+
 func drawC17R(t *rapid.T) c17RCase {
+	if rapid.IntRange(0, 3).Draw(t, "mode") == 0 {
+		return drawC17RReuse(t)
+	}
 	var c c17RCase
 	nf := rapid.IntRange(1, 4).Draw(t, "nframes")
 	for i := 0; i < nf; i++ {
